@@ -1,13 +1,13 @@
-\* reference copy of the quick configuration; the check writes its run-specific cfgs into its tmp dir
+\* reference copy of the thorough configuration (second of two: deep script locations; the first is MaxSys=3 MaxAdded=1 MaxDepth=1); the check writes its run-specific cfgs into its tmp dir
 INIT Init
 NEXT Next
 CONSTANTS
   MaxSys = 2
-  MaxAdded = 1
-  MaxDepth = 2
+  MaxAdded = 2
+  MaxDepth = 4
   MaxChain = 3
-  SysIdx = {1,3,4,5,6,7}
-  AddedIdx = {1,4,9}
+  SysIdx = {1,3,4,7,10,13,14}
+  AddedIdx = {2,4,10}
   EmitMod = 1
   EmitRem = 0
   FixEnvPath = FALSE
